@@ -24,7 +24,7 @@ func init() {
 		Title: "The decoded packet does not depend on how the stream is fragmented",
 		Level: "model_checking",
 		Rule: "stateless exploration of the real ReadPacket under a scripted io.Reader: one choice point per Read call with the menu {deliver all asked, deliver k for every 1<=k<asked, (0,nil) (bounded per execution), deliver the final bytes together with io.EOF}; " +
-			"frames <= 10 bytes: the complete tree with up to 2 zero-length reads; longer frames: every execution with at most 2 non-default answers (3 for frames <= 48 bytes; thorough: 4 for frames <= 24 bytes, 3 for frames <= 100 bytes, two zero-length reads everywhere); one 70 KiB frame with 1 (thorough only); every frame of the valid corpus V (~2.7k frames, one per field shape) with 1 (quick) / 2 (thorough). " +
+			"frames <= 10 bytes: the complete tree with up to 2 zero-length reads; longer frames: every execution with at most 2 non-default answers (3 for frames <= 48 bytes; thorough: 4 for frames <= 24 bytes, 3 for frames <= 100 bytes, two zero-length reads everywhere); frames of 4 090, 5 000 and 9 000 bytes with 1 (plus one 70 KiB frame in the thorough tier); every frame of the valid corpus V (~2.7k frames, one per field shape) with 1 (quick) / 2 (thorough). " +
 			"Every execution's result (accessor observation + String + re-encoding, or rejection) must equal the contiguous execution's. " +
 			"states = distinct (frame, reader position, answers so far) prefixes = choice points visited; transitions = Read answers executed; a trace is one complete delivery schedule, all run on the implementation; distinct_nontrivial = distinct schedules with at least one non-default answer.",
 		Assumptions: []string{
@@ -104,6 +104,11 @@ func clip(s string, n int) string {
 
 func c07Frames(x *core.Ctx) []CFrame {
 	fr := append([]CFrame{}, streamCorpus()...)
+	// frames larger than common internal buffer sizes (4096, 8192)
+	for _, n := range []int{4090, 5000, 9000} {
+		p := &spec.Packet{Type: 3, Flags: 2, PacketID: 3, Topic: []byte("big"), Payload: gen.Content('L', n)}
+		fr = append(fr, CFrame{Name: fmt.Sprintf("publish.%dB", n), B: mustEncode(p, spec.Form{}), Valid: true, Type: 3})
+	}
 	if x.Thorough() {
 		// one frame whose body needs many reads on a slow link
 		p := &spec.Packet{Type: 3, Topic: []byte("big"), Payload: gen.Content('L', 70*1024)}
@@ -137,7 +142,7 @@ func runC07(x *core.Ctx) {
 		switch {
 		case len(f.B) <= 10:
 			bound, maxZero, stratum = -1, 2, "complete<=10B"
-		case len(f.B) > 4096:
+		case len(f.B) > 4000:
 			bound, maxZero, stratum = 1, 1, "bounded1.big"
 		case x.Thorough() && len(f.B) <= 24:
 			bound, maxZero, stratum = 4, 2, "bounded4<=24B"
